@@ -116,6 +116,7 @@ func runReconf(a []string) (result string) {
 		return "ERR parse"
 	}
 	inplace := a[7] == "inplace"
+	literal := a[7] == "literal" // A becomes a zero struct literal that is then given the donor's configuration field by field
 	var envs [][][]float64
 	for _, s := range splitSlash(a[8]) {
 		env, err := parseStreams(s)
@@ -152,6 +153,9 @@ func runReconf(a []string) (result string) {
 		fresh := ctorB(nB, fB)
 		reconfMu.Unlock()
 		first := one(envs[0], a[1], nA, fA, instA, nil)
+		if literal {
+			zeroOut(objA)
+		}
 		if !reconfigure(objA, donor, inplace) {
 			return "ERR not-reconfigurable"
 		}
@@ -169,12 +173,22 @@ func runReconf(a []string) (result string) {
 	}
 	fresh, _ := reportStrategy(a[4], nB, fB)
 	first := one(envs[0], a[1], nA, fA, nil, sA)
+	if literal {
+		zeroOut(sA)
+	}
 	if !reconfigure(sA, donor, inplace) {
 		return "ERR not-reconfigurable"
 	}
 	second := one(envs[1], a[1], nA, fA, nil, sA)
 	ref := one(envs[1], a[4], nB, fB, nil, fresh)
 	return "ok " + first + " | " + second + " | " + ref
+}
+
+func zeroOut(a any) {
+	v := reflect.ValueOf(a)
+	if v.Kind() == reflect.Ptr && !v.IsNil() && v.Elem().CanSet() {
+		v.Elem().Set(reflect.Zero(v.Elem().Type()))
+	}
 }
 
 func splitSlash(s string) []string {
